@@ -26,6 +26,7 @@ type Approval struct {
 	OffMs  int64     `json:"off_ms"` // offset from the first log line of the run
 	Height uint32    `json:"height"`
 	Hash   string    `json:"hash"`
+	Prev   string    `json:"prev,omitempty"`
 }
 
 // RaceReport is one deduplicated `WARNING: DATA RACE` block.
@@ -56,6 +57,7 @@ type fields struct {
 	ID     *int    `json:"id"`
 	Height *uint32 `json:"height"`
 	Hash   string  `json:"hash"`
+	Prev   string  `json:"prev"`
 	Index  *int    `json:"index"`
 }
 
@@ -153,7 +155,7 @@ func Parse(rd io.Reader) (*Log, error) {
 				return nil, fmt.Errorf("unparsable approval line: %q", l)
 			}
 			lg.Approvals[*f.ID] = append(lg.Approvals[*f.ID], Approval{
-				At: ts, OffMs: ts.Sub(lg.First).Milliseconds(), Height: *f.Height, Hash: f.Hash,
+				At: ts, OffMs: ts.Sub(lg.First).Milliseconds(), Height: *f.Height, Hash: f.Hash, Prev: f.Prev,
 			})
 		case msg == "initializing dbft":
 			if f.ID != nil && f.Index != nil {
@@ -371,6 +373,14 @@ func Check(s Spec, lg *Log, p Params) (Summary, []Finding) {
 				}
 				fs = append(fs, Finding{Sig: "noncontiguous:" + kind,
 					What: fmt.Sprintf("node %d approved heights %v: position %d is %d, expected %d", id, clip(hl), i, h, i+1)})
+				break
+			}
+		}
+		// every approved block extends the block the same node approved before
+		for i := 1; i < len(as); i++ {
+			if as[i].Height == as[i-1].Height+1 && as[i].Prev != "" && as[i].Prev != as[i-1].Hash {
+				fs = append(fs, Finding{Sig: "broken-chain",
+					What: fmt.Sprintf("node %d: block %d has prev %s, but its block %d is %s", id, as[i].Height, as[i].Prev, as[i-1].Height, as[i-1].Hash)})
 				break
 			}
 		}
